@@ -126,6 +126,12 @@ def boundary_cases():
             add('num4/%s/%d-bytes-first' % (OPNAME[op], n), push_only(v) + bytes([OP_1, op]))
             add('num4/%s/%d-bytes-second' % (OPNAME[op], n), bytes([OP_1]) + push_only(v) + bytes([op]))
         add('num4/OP_WITHIN/%d-bytes' % n, push_only(v) + bytes([OP_0]) + push_only(v) + bytes([OP_WITHIN]))
+        # every operand position on its own, in every order relation of the other two (all three operands are decoded, whatever the result)
+        for posn in ('x', 'min', 'max'):
+            for rel, (x, lo, hi) in (('x<min', (1, 5, 9)), ('min<=x<max', (6, 5, 9)), ('x>=max', (12, 5, 9)), ('min>max', (6, 9, 5))):
+                ops = {'x': push_num(x), 'min': push_num(lo), 'max': push_num(hi)}
+                ops[posn] = push_only(v)
+                add('num4/OP_WITHIN/%d-bytes-%s-operand/%s' % (n, posn, rel), ops['x'] + ops['min'] + ops['max'] + bytes([OP_WITHIN]))
         add('num4/OP_PICK/%d-bytes' % n, bytes([OP_1]) + push_only(v) + bytes([OP_PICK]))
         add('num4/multisig-count/%d-bytes' % n, bytes([OP_0, OP_0]) + push_only(v) + bytes([OP_CHECKMULTISIG]), svs=[BASE, WITNESS_V0])
     add('num4/result-may-overflow', push_only(b'\xff\xff\xff\x7f') + bytes([OP_1ADD]))
@@ -251,9 +257,11 @@ def txlevel_worker(job):
     wd = scratch('c10t')
     try:
         scs = []
-        for i, sat in enumerate(['initial-stack-999', 'initial-stack-1000', 'initial-stack-1001', 'initial-stack-998-annex', 'initial-stack-1000-annex', 'initial-stack-1001-annex']):
-            sc = c03.build(rng, 'p2tr-script', sat)
-            sc['otype'], sc['sat'] = 'p2tr-script', sat
+        for i, (otype, sat) in enumerate([('p2tr-script', x) for x in ('initial-stack-999', 'initial-stack-1000', 'initial-stack-1001', 'initial-stack-998-annex', 'initial-stack-1000-annex', 'initial-stack-1001-annex')] +
+                                         [('p2wsh-hashlock', x) for x in ('script-521-bytes', 'script-9999-bytes', 'script-10000-bytes', 'script-10001-bytes')] +
+                                         [('p2wsh', 'witness-item-521')]):
+            sc = c03.build(rng, otype, sat)
+            sc['otype'], sc['sat'] = otype, sat
             sc['flags'], sc['flagmod'] = STANDARD, 'standard'
             sc['select'] = -1
             sc['id'] = 'tx%d.%d' % (idx, i)
@@ -264,8 +272,8 @@ def txlevel_worker(job):
         for sc in scs:
             before = len(part.violations)
             c03.judge(sc, c03.parse_events(events.get(sc['id'], [])), part)
-            part.violations[before:] = [('stack1000/tapscript-spend:' + k, w) for k, w in part.violations[before:]]
-            part.count('matrix', 'stack1000/tapscript-spend/%s' % sc['sat'])
+            part.violations[before:] = [(('stack1000/tapscript-spend:' if sc['otype'] == 'p2tr-script' else 'segwit-spend:') + k, w) for k, w in part.violations[before:]]
+            part.count('matrix', '%s/%s' % ('stack1000/tapscript-spend' if sc['otype'] == 'p2tr-script' else 'segwit-spend', sc['sat']))
     finally:
         cleanup_scratch(wd)
     return part.dump()
